@@ -34,12 +34,14 @@ class CellSession:
         W = {"cells": {}, "lists": {}}
         for f in self.fields:
             if f["kind"] == "list":
-                W["lists"][f["name"]] = {"w": f["w"], "s": f["signed"], "init": [ibits(v, f["w"]) for v in f.get("init", [])]}
+                W["lists"][f["name"]] = {"w": f["w"], "s": f["signed"], "rand": bool(f.get("rand")),
+                                         "init": [ibits(v, f["w"]) for v in f.get("init", [])]}
             elif f["kind"] == "enum":
-                W["cells"][f["name"]] = {"w": 32, "s": True, "enum": [bits(v, 32) for v in f["values"]],
+                W["cells"][f["name"]] = {"w": 32, "s": True, "enum": [bits(v, 32) for v in f["values"]], "rand": bool(f.get("rand")),
                                          "init": ibits(f.get("init", f["values"][0]), 32)}
             else:
-                W["cells"][f["name"]] = {"w": f["w"], "s": f["signed"], "enum": [], "init": ibits(f.get("init", 0), f["w"])}
+                W["cells"][f["name"]] = {"w": f["w"], "s": f["signed"], "enum": [], "rand": bool(f.get("rand")) and f.get("where", "obj") == "obj",
+                                         "init": ibits(f.get("init", 0), f["w"])}
         if not W["lists"]:
             W["lists"] = {}
         return W
@@ -168,6 +170,10 @@ class CellSession:
         e = self.guarded(do)
         self.events.append(self.snapshot({"op": "write", "p": op["p"], "how": how, "v": ibits(op["v"], 32 if f["kind"] == "enum" else f["w"]),
                                           "exc": e}))
+
+    def op_randomize(self, op):
+        e = self.guarded(lambda: self.obj.randomize())
+        self.events.append(self.snapshot({"op": "randomize", "exc": e}))
 
     def op_part_write(self, op):
         f = self.fld(op["p"])
